@@ -67,6 +67,11 @@ func concretiseGate(g *gateJ, n int) *c03lib.Request {
 		r.Query, r.Kind = "{ c: name", "parse-error"
 	case "QN":
 		r.Query, r.Kind = "fragment F on Query { name }", "no-operation"
+	case "QT":
+		r.Query, r.Kind = c03lib.TlimDocs[n%len(c03lib.TlimDocs)], "over-token-limit"
+		if strings.HasPrefix(r.Query, "query A") {
+			r.OpName = "A"
+		}
 	case "QI":
 		r.Query, r.Kind = "{ c: name @nosuchDirective }", "invalid"
 	case "QV":
